@@ -24,6 +24,9 @@ import (
 	"sort"
 	"strconv"
 	"strings"
+
+	"github.com/cosmos72/gomacro/fast"
+	"verifh/vh"
 )
 
 const aliasHelperSrc = `
@@ -331,5 +334,123 @@ func newHeap_%s(v []int) heap.Interface { h := H_%s(v); heap.Init(&h); return &h
 		body := fmt.Sprintf("mk := func(a int, b string) fmt.Stringer { return %sT_%s{a, b} }\nvar arr [%d]fmt.Stringer\nvar boxes []Box_%s\nfor i := range arr { arr[i] = mk(i+%d, \"q\"); boxes = append(boxes, Box_%s{mk(i*7, \"r\"), i}) }\nout = joinStringers(arr[:])\nfor _, b := range boxes { out += callString(b.S) + strconv.Itoa(b.N) }",
 			amp, k, n, k, g.r.Intn(30), k)
 		return prog{Kind: "same-site/closure-results-kept", Decls: decl, Body: body}
+	}
+}
+
+// ---------- correspondence for coq/C11/Model.v crun/cread (conversion closure) ----------
+// One conversion site inside a loop is executed once per CConv operation on an addressable operand (vs[i]); CSet operations
+// assign to the variables in between; at the end every interface value produced is read by calling its method.
+// Direct oracle: the same operation list executed natively (compiled Go) on a native type.
+
+type nativeC struct{ A int }
+
+func (c nativeC) String() string { return strconv.Itoa(c.A) }
+func (c nativeC) Error() string  { return strconv.Itoa(c.A) }
+
+func nativeConvRun(vars []int, ops [][3]int) []string {
+	vs := make([]nativeC, len(vars))
+	for i, v := range vars {
+		vs[i].A = v
+	}
+	var outs []fmt.Stringer
+	for _, o := range ops {
+		if o[0] == 0 {
+			var s fmt.Stringer = vs[o[1]]
+			outs = append(outs, s)
+		} else {
+			vs[o[1]].A = o[2]
+		}
+	}
+	var res []string
+	for _, s := range outs {
+		res = append(res, s.String())
+	}
+	return res
+}
+
+func convCases(cw *vh.Cases, rep *vh.Report, ir *fast.Interp, rng *vh.Rng, n int) {
+	for c := 0; c < n; c++ {
+		k := fmt.Sprintf("cv%d", c)
+		nv := 1 + rng.Intn(3)
+		vars := make([]int, nv)
+		var cvars []string
+		for i := range vars {
+			vars[i] = rng.Intn(50)
+			cvars = append(cvars, strconv.Itoa(vars[i]))
+		}
+		var ops [][3]int
+		var cops, gops []string
+		nconv := 0
+		for i := 2 + rng.Intn(8); i > 0; i-- {
+			x := rng.Intn(nv)
+			if rng.Intn(5) < 3 {
+				ops = append(ops, [3]int{0, x, 0})
+				cops = append(cops, fmt.Sprintf("CConv %d", x))
+				nconv++
+			} else {
+				v := 100 + rng.Intn(900)
+				ops = append(ops, [3]int{1, x, v})
+				cops = append(cops, fmt.Sprintf("CSet %d %d", x, v))
+			}
+			gops = append(gops, fmt.Sprintf("{%d, %d, %d}", ops[len(ops)-1][0], ops[len(ops)-1][1], ops[len(ops)-1][2]))
+		}
+		iface, meth := "fmt.Stringer", "String"
+		if rng.Intn(3) == 0 {
+			iface, meth = "error", "Error"
+		}
+		site := []string{
+			"var s " + iface + " = vs[o[1]]\n\t\t\touts = append(outs, s)",
+			"s := " + iface + "(vs[o[1]])\n\t\t\touts = append(outs, s)",
+			"outs = append(outs, to_" + k + "(&vs[o[1]]))",
+			"outs = append(outs, nil)\n\t\t\touts[len(outs)-1] = vs[o[1]]",
+		}[rng.Intn(4)]
+		src := fmt.Sprintf(`type C_%s struct{ A int }
+func (c C_%s) %s() string { return strconv.Itoa(c.A) }
+func to_%s(p *C_%s) %s { return *p }
+func run_%s() string {
+	vs := make([]C_%s, %d)
+	for i, v := range []int{%s} { vs[i].A = v }
+	var outs []%s
+	for _, o := range [][3]int{%s} {
+		if o[0] == 0 {
+			%s
+		} else {
+			vs[o[1]].A = o[2]
+		}
+	}
+	res := ""
+	for _, s := range outs { res += s.%s() + "," }
+	return res
+}
+`, k, k, meth, k, k, iface, k, k, nv, strings.Join(cvars, ", "), iface, strings.Join(gops, ", "), site, meth)
+		input := map[string]interface{}{"source": src, "call": "run_" + k + "()"}
+		var got string
+		perr := vh.Catch(func() {
+			ir.Eval(src)
+			v, _ := ir.Eval1("run_" + k + "()")
+			got = v.ReflectValue().String()
+		})
+		want := nativeConvRun(vars, ops)
+		idx := 200000 + c
+		obs := []string{}
+		if perr != nil {
+			rep.Fail(vh.Failure{Key: "c11:conv:" + src, What: "conversion-site program fails in the interpreter", Input: input, Got: fmt.Sprint(perr), Want: want})
+			got = "999999," // the case is still written: the model will not agree either
+		}
+		for _, f := range strings.Split(strings.TrimSuffix(got, ","), ",") {
+			if f != "" {
+				if _, err := strconv.ParseUint(f, 10, 32); err != nil {
+					f = "999999"
+				}
+				obs = append(obs, f)
+			}
+		}
+		if perr == nil && strings.Join(obs, ",") != strings.Join(want, ",") {
+			rep.Fail(vh.Failure{Key: "c11:conv:" + src, What: "interface values produced by one conversion site do not hold the values converted (compiled Go: each conversion copies the value into its own interface value)", Input: input, Got: obs, Want: want})
+		}
+		cw.Add(fmt.Sprintf("XC (mkCCase %d %s %s %s)", idx, vh.CoqList(cvars, "N"), vh.CoqList(cops, "cop"), vh.CoqList(obs, "N")))
+		rep.CaseInput(idx, input)
+		rep.Count("conv|"+src, nconv >= 2)
+		rep.Dist("conversion-site:" + iface)
 	}
 }
